@@ -160,7 +160,9 @@ class C20(Prop):
         res = {}
         scs = []
         for i, (rank, nm) in enumerate(items):
-            sc = Scaffold(first_names[i] if first_names else nm, rank=rank)
+            # rank 0 is the DEFAULT rank of a scaffold that was never ranked (parsed from a file): built without
+            # the argument, so that a changed default shows
+            sc = Scaffold(first_names[i] if first_names else nm, rank=rank) if rank else Scaffold(first_names[i] if first_names else nm)
             sc._idx = i
             scs.append(sc)
         if first_names:
